@@ -96,6 +96,9 @@ def build(rng, seed, mode):
         s = s2
         if mode == 'mixed':
             add(s, 'b')
+            # directories are laid out before all file data: a new one moves every file of the image
+            for _ in range(rng.choice([0, 1, 1, 3])):
+                s.step(g.op_add_directory(s.model))
     return s, files, None
 
 
@@ -165,6 +168,23 @@ def run_program(seed, mode, counters, program=None, record=None):
         since = {id(t): 'none' for t in twins}
         for step in range(rng.randint(5, 40)):
             x = rng.random()
+            if 0.66 <= x < 0.7 and len(twins) < 5:
+                # a stream opened in the middle of the program (after queries, extractions or a
+                # write may have recomputed the layout)
+                name = rng.choice(names)
+                keys, content = files[name]
+                k = rng.choice(sorted(keys))
+                try:
+                    f = stack.enter_context(s.iso.open_file_from_iso(**{k: keys[k]}))
+                except Exception as e:
+                    vio.append({'key': 'open_file_from_iso-raises:%s' % type(e).__name__, 'detail': '%s=%s: %s' % (k, keys[k], e)})
+                    break
+                tw_new = Twin(f, content, '%s via %s (opened at step %d)' % (name, k, step))
+                twins.append(tw_new)
+                since[id(tw_new)] = 'late-open'
+                trace.append('open %s (%d bytes) via %s' % (name, len(content), k))
+                counters['late_opens'] = counters.get('late_opens', 0) + 1
+                continue
             if x < 0.7:
                 tw = rng.choice(twins)
                 desc, kind, fn = stream_op(rng, tw)
